@@ -181,7 +181,7 @@ Qed.
 
 Lemma sort_body_spec s al i r s' : SI s al → i + 1 < nvars s0 →
   sort_body order al i s = (r, s') →
-  r = Err EOracle ∨
+  r = Err EOracle ∨ r = Err ERuntime ∨
   ∃ al' p q, r = Ok al' ∧ akey order s i = Some p ∧ akey order s (i + 1) = Some q ∧
     ((p ≤ q ∧ s' = s ∧ al' = al) ∨
      (q < p ∧ SI s' al' ∧ ∀ l, akey order s' l = akey order s (tp i (i + 1) l))).
@@ -205,33 +205,35 @@ Proof.
   case_decide as Hqp.
   - destruct (swap i (i + 1) (Some al) s) as [r1 s1] eqn:Esw.
     destruct (swap_adj L s al i (i + 1) r1 s1 HG Hal ltac:(by left) ltac:(lia) ltac:(lia) Esw)
-      as [->|(al1&->&HS1&Hal1&Hp1)].
+      as [->|[(->&_)|(al1&->&HS1&Hal1&Hp1)]].
     { rewrite (bind_err _ _ _ _ _ Esw). intros [= <- <-]. by left. }
-    rewrite (bind_ok _ _ _ _ _ Esw). cbn [snd]. intros [= <- <-]. right.
+    { rewrite (bind_err _ _ _ _ _ Esw). intros [= <- <-]. by right; left. }
+    rewrite (bind_ok _ _ _ _ _ Esw). cbn [snd]. intros [= <- <-]. right. right.
     exists al1, p, q. unfold akey. rewrite Ex, Ey. split_and!; try done. right.
     pose proof HS1 as ((HI1&_)&Hn1&_).
     split; [done|]. split.
     + split; [by apply (Stp_trans L s0 s s1)|]. split; [done|]. split.
       * rewrite (vperm_fmap _ s s1 Hp1 Hn1), dom_fmap_L. done.
-      * pose proof (pres_swap i (i + 1) (Some al) s _ s1 Esw) as E. injection E as _ E.
+      * pose proof (pres_swap i (i + 1) (Some al) s _ s1 Esw) as E. injection E as _ E _.
         congruence.
     + intros l. by rewrite (l2v_perm (tp i (i + 1)) s s1 l HI HI1 Hp1 Hn1 (tp_tp i (i + 1))).
-  - intros [= <- <-]. right. exists al, p, q. unfold akey. rewrite Ex, Ey.
+  - intros [= <- <-]. right. right. exists al, p, q. unfold akey. rewrite Ex, Ey.
     split_and!; try done. left. split; [lia|done].
 Qed.
 
 Lemma sort_inner k : k < nvars s0 → ∀ cnt i s al r s',
   SI s al → rinv (nvars s0) k i (akey order s) → i + cnt = nvars s0 - 1 →
   foldM (sort_body order) al (seq i cnt) s = (r, s') →
-  r = Err EOracle ∨
+  r = Err EOracle ∨ r = Err ERuntime ∨
   ∃ al', r = Ok al' ∧ SI s' al' ∧ rinv (nvars s0) k (nvars s0 - 1) (akey order s').
 Proof.
   intros Hk. induction cnt as [|cnt IH]; intros i s al r s' HS HR Hic.
-  - cbn [seq foldM]. intros [= <- <-]. right. exists al. replace (nvars s0 - 1) with i by lia. done.
+  - cbn [seq foldM]. intros [= <- <-]. right. right. exists al. replace (nvars s0 - 1) with i by lia. done.
   - cbn [seq foldM]. destruct (sort_body order al i s) as [r1 s1] eqn:Eb.
     destruct (sort_body_spec s al i r1 s1 HS ltac:(lia) Eb)
-      as [->|(al1&p&q&->&Hp&Hq&[(Hpq&->&->)|(Hqp&HS1&Hf)])].
+      as [->|[->|(al1&p&q&->&Hp&Hq&[(Hpq&->&->)|(Hqp&HS1&Hf)])]].
     + rewrite (bind_err _ _ _ _ _ Eb). intros [= <- <-]. by left.
+    + rewrite (bind_err _ _ _ _ _ Eb). intros [= <- <-]. by right; left.
     + rewrite (bind_ok _ _ _ _ _ Eb). apply IH; [done| |lia].
       replace (S i) with (i + 1) by lia.
       apply (rinv_noswap _ _ k i p q); try done; lia.
@@ -245,17 +247,18 @@ Lemma sort_outer : ∀ cnt k s al r s',
   SI s al → fixk (nvars s0) (akey order s) k → k + cnt = nvars s0 →
   foldM (fun al (_ : nat) => foldM (sort_body order) al (seq 0 (nvars s0 - 1)))
         al (seq k cnt) s = (r, s') →
-  r = Err EOracle ∨
+  r = Err EOracle ∨ r = Err ERuntime ∨
   ∃ al', r = Ok al' ∧ SI s' al' ∧ fixk (nvars s0) (akey order s') (nvars s0).
 Proof.
   induction cnt as [|cnt IH]; intros k s al r s' HS HF Hk.
-  - cbn [seq foldM]. intros [= <- <-]. right. exists al. replace (nvars s0) with k at 2 by lia. done.
+  - cbn [seq foldM]. intros [= <- <-]. right. right. exists al. replace (nvars s0) with k at 2 by lia. done.
   - cbn [seq foldM].
     destruct (foldM (sort_body order) al (seq 0 (nvars s0 - 1)) s) as [r1 s1] eqn:Ein.
-    destruct (sort_inner k ltac:(lia) (nvars s0 - 1) 0 s al r1 s1 HS) as [->|(al1&->&HS1&HR1)];
-      [|lia|done| |].
+    destruct (sort_inner k ltac:(lia) (nvars s0 - 1) 0 s al r1 s1 HS) as [->|[->|(al1&->&HS1&HR1)]];
+      [|lia|done| | |].
     + apply rinv_start; [done|by apply (akey_keyfun s al)|lia].
     + rewrite (bind_err _ _ _ _ _ Ein). intros [= <- <-]. by left.
+    + rewrite (bind_err _ _ _ _ _ Ein). intros [= <- <-]. by right; left.
     + rewrite (bind_ok _ _ _ _ _ Ein). apply IH; [done| |lia].
       apply rinv_end; [lia|by apply (akey_keyfun s1 al1)|done].
 Qed.
@@ -268,7 +271,7 @@ Theorem sort_to_order_correct order s L r s' :
   (∀ v l, order !! v = Some l → l < nvars s) →
   (∀ u, u ∈ roots s → held L u) →
   sort_to_order order s = (r, s') →
-  r = Err EOracle ∨
+  r = Err EOracle ∨ r = Err ERuntime ∨
   (r = Ok tt ∧ Stp L s s' ∧ vars s' = order ∧ rr s' = rr s).
 Proof.
   intros HG Hdom Hinj Hbnd Hroots Hrun.
@@ -284,10 +287,11 @@ Proof.
   assert (HS0 : SI order L s s al).
   { split; [by apply Stp_refl|]. done. }
   destruct (sort_outer order L s Hinj Hbnd Hroots (nvars s) 0 s al r1 s1 HS0)
-    as [->|(al1&->&HS1&HF)]; [|done|exact Eout| |].
+    as [->|[->|(al1&->&HS1&HF)]]; [|done|exact Eout| | |].
   - intros l Hl1 Hl2. lia.
   - rewrite (bind_err _ _ _ _ _ Eout). intros [= <- <-]. by left.
-  - rewrite (bind_ok _ _ _ _ _ Eout). intros [= <- <-]. right.
+  - rewrite (bind_err _ _ _ _ _ Eout). intros [= <- <-]. by right; left.
+  - rewrite (bind_ok _ _ _ _ _ Eout). intros [= <- <-]. right. right.
     destruct HS1 as (HStp&_&Hd1&_). split_and!; try done.
     pose proof HStp as ((HI1&_)&Hn1&_).
     apply map_eq. intros v. destruct (order !! v) as [p|] eqn:Hp.
